@@ -242,7 +242,7 @@ pub fn protocol_events(inv : &Invocation) -> String
     format!("(l {})", out.join(" "))
 }
 
-fn explore(out : &mut Out, rng : &mut Rng, p : &Prepared, op : &Op, n_random : usize, n_pct : usize, dfs_budget : usize)
+fn explore(out : &mut Out, rng : &mut Rng, p : &Prepared, op : &Op, n_random : usize, n_pct : usize, dfs_budget : usize, n_order : usize)
 {
     // serial reference
     let d0 = p.driver.fork();
@@ -322,6 +322,42 @@ fn explore(out : &mut Out, rng : &mut Rng, p : &Prepared, op : &Op, n_random : u
         }
         inv.choices.clone()
     };
+
+    // R-order: work-atomic schedules (Policy::Order) are the schedules of Model/Sched.v: the whole observation —
+    // verdict, executed lines in execution order, status lines, workspace, cache, histories, table — of the
+    // implementation under such a schedule is compared with `build_ord` run in the order the work steps took
+    if let Op::Build(goal) = op
+    {
+        let nworkers = reference.trace.iter().filter(|e| e.task == 0 && e.what.starts_with("spawn")).count();
+        for _ in 0..n_order
+        {
+            let mut prio : Vec<usize> = (1..=nworkers).collect();
+            rng.shuffle(&mut prio);
+            let d = p.driver.fork();
+            let inv = d.invoke(op, Policy::Order(prio.clone()));
+            d.tick();
+            out.count("schedules");
+            out.count("work-order-runs");
+            if inv.deadlock || matches!(inv.verdict, Verdict::Panic(_)) || !inv.panicked_tasks.is_empty()
+            {
+                out.violation("C05:deadlock-or-panic", format!("under the work order priorities {:?}: {}", prio, inv.verdict.show()), replay_json("sched", &p.prep, op, &format!("order({:?})", prio), &inv.choices));
+                continue;
+            }
+            // the order in which the workers did their work
+            let events = protocol_events(&inv);
+            let order : Vec<String> = events.split("(work #").skip(1).map(|x| format!("#{}", x.split(')').next().unwrap_or("0"))).collect();
+            if order.iter().map(|x| x.clone()).collect::<BTreeSet<String>>().len() != order.len() { out.count("work-order:duplicate-work-event"); continue; }
+            out.count(if order.iter().enumerate().all(|(i, x)| *x == format!("#{}", i)) { "work-order:spawn-order" } else { "work-order:other" });
+            let case = sexp::paren(&["order".to_string(), sexp::boolean(false), sexp::num64(1_000_000), sexp::list(p.prep.iter().map(|o| o.show()).collect()),
+                                     sexp::option(goal.clone().map(|g| sexp::hex(g.as_bytes()))), sexp::list(order)]);
+            out.case(case, sexp::paren(&["order".to_string(), sexp::boolean(true), world::show_obs(Some(&inv), &d.sys.disk())]), true);
+            // C06 on this schedule
+            if inv.verdict != reference.verdict || disk_files(&inv.after) != ref_files
+            {
+                out.violation("C06:outcome-depends-on-work-order", format!("work order priorities {:?} give verdict {} / different files; the serial schedule gives {}", prio, inv.verdict.show(), reference.verdict.show()), replay_json("sched", &p.prep, op, &format!("order({:?})", prio), &inv.choices));
+            }
+        }
+    }
 
     for k in 0..n_random { let seed = rng.next_u64(); run_one(Policy::Random(seed), format!("random({})", seed), out, &mut distinct_traces); let _ = k; }
     for _ in 0..n_pct { let seed = rng.next_u64(); let depth = rng.range(1, 3); run_one(Policy::Pct(seed, depth), format!("pct({},{})", seed, depth), out, &mut distinct_traces); }
@@ -469,7 +505,7 @@ pub fn schedules(ctx : &Ctx, out : &mut Out)
                 tr.ever_targets.extend(sc.all_targets());
                 let p = Prepared{driver : driver, prep : prep.to_vec(), tracker : tr, scenario : sc};
                 let mut rng = Rng::new(ctx.seed).fork(77);
-                explore(out, &mut rng, &p, &last[0], if ctx.thorough { 400 } else { 150 }, 30, if ctx.thorough { 4000 } else { 600 });
+                explore(out, &mut rng, &p, &last[0], if ctx.thorough { 400 } else { 150 }, 30, if ctx.thorough { 4000 } else { 600 }, if ctx.thorough { 40 } else { 10 });
             }
         }
     }
@@ -489,6 +525,6 @@ pub fn schedules(ctx : &Ctx, out : &mut Out)
         let op = if r.chance(1, 6) { Op::Clean(goal) } else { Op::Build(goal) };
         let (n_random, n_pct) = if ctx.thorough { (60, 20) } else { (20, 10) };
         let dfs = if small && sc.rules.len() <= 3 { if ctx.thorough { 3000 } else { 250 } } else { 0 };
-        explore(out, &mut r, &p, &op, n_random, n_pct, dfs);
+        explore(out, &mut r, &p, &op, n_random, n_pct, dfs, if ctx.thorough { 12 } else { 6 });
     }
 }
